@@ -6,5 +6,7 @@ import KalignModel.Props.C05PipelineSoftL
 import KalignModel.Props.C05PipelineSoftFinal
 import KalignModel.Props.C05PipelineSoft2
 import KalignModel.Props.C05PipelineSoft2Ex
+import KalignModel.Props.C05WholeProgram
+import KalignModel.Props.C05WholeProgramEx
 /-! aggregator: the reader/table/path theorems of C05, the pipeline no-fault theorems, the software binary32 and the monitor theorems on
 it, the unconditional no-fault theorems of the SoftF32 pipeline, audited together by tools/props/c05.py -/
